@@ -258,6 +258,21 @@ func VerifCancelRestores() {
 			verifrt.Assert(false, "C05-device-presence-restored/path-was-unmanaged-on-device")
 			continue
 		}
+		if !dev.pres[l.id] && pre.rpres[l.id] {
+			// lost together with an explicitly set presence container above it that the
+			// transaction created and the rollback removed again? (the root cause of C01's
+			// finding "below-presence-container-given-up-by-another-intent", here in the rollback)
+			below := false
+			for _, l2 := range sc.leaves {
+				if l2.empty && l2 != l && vIsPrefix(l2.id, l.id) && req.pres[l2.id] && !pre.pres[l2.id][req.owner] {
+					below = true
+				}
+			}
+			if below {
+				verifrt.Assert(false, "C05-device-presence-restored/below-presence-container-created-by-the-transaction")
+				continue
+			}
+		}
 		verifrt.Assert(dev.pres[l.id] == pre.rpres[l.id], "C05-device-presence-restored")
 		if dev.pres[l.id] && pre.rpres[l.id] {
 			verifrt.Assert(l.sameVal(dev.tv[l.id], pre.rval[l.id]), "C05-device-value-restored")
